@@ -12,6 +12,8 @@ WEAVE += [dict(file='src/fiber.c', fns=['fiber_go_function', 'fiber_join_routine
 LF = ['-DVERIF_LOOP_FLAG']
 GROUPS = [
     dict(name='yield_switch', tu='manager.c', harness='h_yield', mode='H', loop_contracts=True, defs=LF, functions=['fiber_manager_yield', 'fiber_manager_switch_to', 'fiber_manager_do_maintenance', 'fiber_destroy'], timeout=900),
+    dict(name='node_pool', tu='manager.c', harness='h_node_pool', mode='H', defs=LF, functions=['fiber_manager_get_mpmc_node', 'fiber_manager_return_mpmc_node', 'fiber_manager_return_mpmc_node_internal', 'lockfree_ring_buffer_create', 'lockfree_ring_buffer_trypush', 'lockfree_ring_buffer_trypop'],
+         unwind=2, exact_unwind=True, cbmc_flags=['--no-malloc-may-fail'], timeout=600),
     dict(name='maintenance', tu='manager.c', harness='h_maintenance', mode='H', defs=LF, functions=['fiber_manager_do_maintenance', 'fiber_destroy'], unwind=2, exact_unwind=True),
     dict(name='maintenance_migrating_unlock', tu='manager.c', harness='h_maintenance_migrating', mode='H', defs=LF, functions=['fiber_manager_do_maintenance', 'fiber_destroy'], unwind=2, exact_unwind=True),
     dict(name='wait_in_mpsc', tu='manager.c', harness='h_wait_mpsc', mode='H', defs=LF, functions=['fiber_manager_wait_in_mpsc_queue', 'fiber_manager_wait_in_mpsc_queue_and_unlock'], unwind=2, exact_unwind=True),
